@@ -279,7 +279,13 @@ def route_event(rng, T):
             g = sf.Frame.from_json(json.dumps([dict(zip(f.columns, [c[i] for c in cols])) for i in range(len(f))]))
             eq = strict_equal(f.relabel(index=sf.IndexAutoFactory), g)
         elif route in ('pickle', 'deepcopy'):
-            g = pickle.loads(pickle.dumps(f)) if route == 'pickle' else copy.deepcopy(f)
+            if f.columns.depth == 1 and rng.random() < 0.5:
+                # a grow-only Frame exported right after it was grown (nothing has re-read its columns in between)
+                f = f.to_frame_go()
+                for j in range(rng.randint(1, 2)):
+                    f['zG%d' % j] = np.arange(len(f.index)) * (j + 2)
+                route = route + '_grown'
+            g = pickle.loads(pickle.dumps(f)) if route.startswith('pickle') else copy.deepcopy(f)
             eq = strict_equal(f, g, dtypes=True) and g.name == f.name and g.index.__class__ is f.index.__class__ and g.columns.__class__ is f.columns.__class__
             eq = eq and not any(b.flags.writeable for b in g._blocks._blocks) and not g.index.values.flags.writeable and not g.columns.values.flags.writeable
         else:
